@@ -54,6 +54,9 @@ TEXTS = [
     "beg\u0131n_group = 5\nBEG\u0131N_OBJECT = 6\nx = fal\u017fe\nEND\n",
     # a stray comment delimiter in the first bare word of a text
     "c = d*/\n", "c = */\nEND\n", "c = /*unfinished\n",
+    # a line that ends in a dash (the permissive parsers take another path)
+    "name = Mars-\n   Odyssey\nk = 2\nEND\n", "k = (1, 2,-\n 3)\nEND\n",
+    "a =\nb = x-\n y\nc =\n", "s = \"one-\n  two\"\nt =\n\nu = 1\n",
 ]
 PARSERS = ("PVL", "ODL", "PDS3", "ISIS", "default", "lenient-PVL", "lenient-ODL")
 # how the long-lived instance is called: directly, through pvl.loads/load with
